@@ -1,7 +1,7 @@
 (* C01 for every history of run-time modifications of the superposition (SuperposModel.v, R instance). *)
 From Coq Require Import ZArith List Bool Reals Lra Lia.
 From Coquelicot Require Import Coquelicot.
-From CV Require Import Base.Num Base.RNum C18.ValueModel C06.RestraintModel C01.ForceModel C01.ForceProofs C01.PolarProofs C01.SuperposModel.
+From CV Require Import Base.Num Base.RNum C18.ValueModel C06.RestraintModel C01.ForceModel C01.ForceProofs C01.PolarProofs C01.HistProofs C01.SuperposModel.
 Import ListNotations.
 Local Open Scope R_scope.
 
@@ -37,11 +37,11 @@ Qed.
 Theorem history_forces_are_minus_gradient cell (descr : list (R * list SCVC)) bs (h : list EVT) (s : SYS) :
   let cf := effective cell (state_after Rops descr h) bs in
   (forall v c, In v (cf_vars cf) -> In c (cv_cvcs v) -> cvc_guard_w (cf_cell cf) c s) ->
-  (forall b, In b (cf_biases cf) -> bias_guard b (cf_vars cf) (var_values Rops PI cf s)) ->
+  (forall b, In b (cf_biases cf) -> bias_guard_w b (cf_vars cf) (var_values Rops PI cf s)) ->
   forall a k, (a < length s)%nat ->
     is_derive (fun t => h_energy Rops PI cell descr bs h (set_coord s a k t)) (coord Rops s a k)
               (- vget k (nth a (h_forces Rops PI cell descr bs h s) (vzero Rops))).
-Proof. intros cf Hc Hb a k Ha. unfold h_energy, h_forces. apply forces_are_minus_gradient_w; assumption. Qed.
+Proof. intros cf Hc Hb a k Ha. unfold h_energy, h_forces. apply forces_are_minus_gradient_ww; assumption. Qed.
 
 (* ---- a history that makes the flags stale, and for which every premise holds ----
    one variable, one distance component read with componentCoeff 1, componentExp 1 (linear, homogeneous); then
@@ -97,8 +97,8 @@ Qed.
 Lemma ex_hist_guards :
   let cf := effective None (state_after Rops ex_descr ex_hist) (cf_biases ex_cf) in
   (forall v c, In v (cf_vars cf) -> In c (cv_cvcs v) -> cvc_guard_w (cf_cell cf) c ex_sys) /\
-  (forall b, In b (cf_biases cf) -> bias_guard b (cf_vars cf) (var_values Rops PI cf ex_sys)).
-Proof. cbv zeta. rewrite ex_state. exact ex_guards_w. Qed.
+  (forall b, In b (cf_biases cf) -> bias_guard_w b (cf_vars cf) (var_values Rops PI cf ex_sys)).
+Proof. cbv zeta. rewrite ex_state. exact ex_guards_ww. Qed.
 
 (* ---- a force path that trusted the stale flag would be wrong ----
    the linear branch f * coeff for a variable flagged linear, against the branch that reads the exponent: with
